@@ -524,7 +524,9 @@ def judge_routes(prog, res, force_ref=None):
         bang = [l for l in lines if l.startswith("!")]
         if bang:
             kind = bang[0].split()[0][1:]
-            return (f"{kind}-{r}", f"route {r}: {bang[0]} (each async request must invoke its callback exactly once)", r, None)
+            why = ("each async request must invoke its callback exactly once" if kind.startswith("cb") else
+                   "every stat field must equal what statx(2)/statfs(2) reports for the same object at that moment" if kind.startswith("stat") else "")
+            return (f"{kind}-{r}", f"route {r}: {bang[0]} ({why})", r, None)
     # majority = reference
     logs = {r: "\n".join(res[r][1]) for r in live}
     counts = {}
@@ -582,8 +584,9 @@ def run_route_case(ctx, exe, prog, tp, stats):
         if res["uring"][1][:1] == ["ROUTE-SKIPPED uring"]:
             stats["uring_skipped"] += 1
         for r in ("pool", "uring"):
-            m = re.search(r"uring_ops=(\d+) pool_ops=(\d+)", res[r][2])
+            m = re.search(r"uring_ops=(\d+) pool_ops=(\d+) btime_stats=(\d+)", res[r][2])
             if m:
+                stats["stats_with_birthtime_" + r] = stats.get("stats_with_birthtime_" + r, 0) + int(m.group(3))
                 stats[r + "_via_uring"] += int(m.group(1)); stats[r + "_via_pool"] += int(m.group(2))
         j = judge_routes(prog, res)
         if j is None:
